@@ -13,7 +13,7 @@ import (
 )
 
 func init() {
-	register("C18", "Decides the structure that mutual exclusion of settings rests on: (R1) the comparator used to sort the settings before the conflict scan is a strict total order — a decision table over the six worlds (creation time earlier/equal/later × name smaller/larger) shows it is lexicographic (creation time, then a strict name comparison; or names alone), and the sort call on exactly the scanned slice dominates the scan loop; (R2) the ExtendedDaemonsetSetting reconciler lists settings restricted to the namespace of the reconciled object (names unique), lists nodes unfiltered (or restricted only by options built from the reconciled setting's own node selector), and hands exactly these lists and the reconciled object to the conflict search; (R3) on every path of the Reconcile to the status write: a missing reference, a node list error or a conflict-search error ends with Status=error and a non-empty Error, Status=valid is written only with an Error shown empty after its last store, a path without any failure writes Status=valid, every failing path reaches the write, and the status written is the computed one; (R4) the conflict search returns a conflict only under (selector of the scanned setting matches the node ∧ scanned setting is the reconciled one ∧ an earlier scanned setting is recorded for that node), every matching earlier setting is recorded under the node's name, a recorded match can never be seen by the look-up of the same scan step, other map writes cannot reach the look-up for the same node, and a selector conversion error is returned; (R5) a setting reaches NodeItem.ExtendedDaemonsetSetting only under Status.Status==valid ∧ its own selector (same conversion as the conflict search) matches the labels of the very node of the item, the scanned settings are exactly those appended under Spec.Reference.Name == the ExtendedDaemonSet's name from a list restricted to its namespace, and functions taking a setting receive it only from NodeItem.", runC18)
+	register("C18", "Decides the structure that mutual exclusion of settings rests on: (R1) the comparator used to sort the settings before the conflict scan is a strict total order — a decision table over the six worlds (creation time earlier/equal/later × name smaller/larger) shows it is lexicographic (creation time, then a strict name comparison; or names alone), and the sort call on exactly the scanned slice dominates the scan loop; (R2) the ExtendedDaemonsetSetting reconciler lists settings restricted to the namespace of the reconciled object (names unique), lists nodes unfiltered (or restricted only by options built from the reconciled setting's own node selector), and hands exactly these lists and the reconciled object to the conflict search; (R3) on every path of the Reconcile to the status write: a missing reference, a node list error or a conflict-search error ends with Status=error and a non-empty Error, Status=valid is written only with an Error shown empty after its last store and only on a path that carries the facts reference set ∧ settings-list error == nil ∧ node-list error == nil ∧ error returned by the conflict search == nil (the decision is taken on the error values, not on a by-product), a path without any failure writes Status=valid, every failing path reaches the write, and the status written is the computed one; (R4) the conflict search returns a conflict only under (selector of the scanned setting matches the node ∧ scanned setting is the reconciled one ∧ an earlier scanned setting is recorded for that node), every matching earlier setting is recorded under the node's name, a recorded match can never be seen by the look-up of the same scan step, other map writes cannot reach the look-up for the same node, and a selector conversion error is returned; (R5) a setting reaches NodeItem.ExtendedDaemonsetSetting only under Status.Status==valid ∧ its own selector (same conversion as the conflict search) matches the labels of the very node of the item, the scanned settings are exactly those appended under Spec.Reference.Name == the ExtendedDaemonSet's name from a list restricted to its namespace, and functions taking a setting receive it only from NodeItem.", runC18)
 }
 
 const (
@@ -404,8 +404,22 @@ func c18StatusTable(r *Run, rec *ssa.Function, reach map[*ssa.Function]bool, upd
 			case allOK:
 				r.Check("C18.R3", construct, pos, shortFunc(rec), "a path without failure writes Status="+validC+" with an empty Error", st.statusSet && st.status == validC && st.err == c18Empty, got)
 			default:
-				o := r.Check("C18.R3", construct, pos, shortFunc(rec), "Status="+validC+" is written only with an Error shown empty after its last store", !(st.statusSet && st.status == validC) || st.err == c18Empty, got)
-				o.Trivial = !(st.statusSet && st.status == validC)
+				// Neither a known failure nor all five tests passed: some error value is not tested on
+				// this path (or the settings list failed). valid must be decided on the error values
+				// themselves, not on a by-product such as the returned name or the message.
+				isValid := st.statusSet && st.status == validC
+				var untested []string
+				for _, t := range []struct {
+					n string
+					b *bool
+				}{{"spec.reference != nil", refNil}, {"spec.reference.name != \"\"", refNameEmpty}, {"settings list error == nil", settingsErr}, {"node list error == nil", nodesErr}, {"error returned by the conflict search == nil", conflictErr}} {
+					if !is(t.b, false) {
+						untested = append(untested, t.n)
+					}
+				}
+				o := r.Check("C18.R3", construct, pos, shortFunc(rec), "Status="+validC+" is written only on a path that carries: reference set, settings list error == nil, node list error == nil, error returned by the conflict search == nil", !isValid,
+					got+"; not established on this path: "+strings.Join(untested, ", "))
+				o.Trivial = !isValid
 			}
 			if (fail || allOK) && st.statusSet && st.status == validC && st.err != c18Empty {
 				r.Check("C18.R3", construct+" valid⇒empty", pos, shortFunc(rec), "Status="+validC+" is written only with an Error shown empty after its last store", false, got)
